@@ -54,7 +54,7 @@ Definition exclOn (f : N) (th : mthread) : Prop := pri f th = Ready MExcl \/ tra
 
 Lemma start_op_anchors : forall sh m o sh' p' evs, start_op sh m o = (sh', p', evs) -> anchors sh' = anchors sh.
 Proof.
-  intros sh m o sh' p' evs E. destruct o; cbn [start_op] in E;
+  intros sh m o sh' p' evs E. destruct m; destruct o; cbn [start_op] in E;
     repeat match type of E with
            | context [if ?x then _ else _] => destruct x
            | context [match first_free ?a ?b with _ => _ end] => destruct (first_free a b)
@@ -63,7 +63,7 @@ Qed.
 
 Lemma start_op_nofree : forall sh m o sh' p' evs sid, start_op sh m o = (sh', p', evs) -> ~ In (MFree sid) evs.
 Proof.
-  intros sh m o sh' p' evs sid E. destruct o; cbn [start_op] in E;
+  intros sh m o sh' p' evs sid E. destruct m; destruct o; cbn [start_op] in E;
     repeat match type of E with
            | context [if ?x then _ else _] => destruct x
            | context [match first_free ?a ?b with _ => _ end] => destruct (first_free a b)
@@ -72,6 +72,7 @@ Qed.
 
 (* what a step of a process does to the anchors: nothing, or one anchor through astepA *)
 Lemma tstep_anchor_effect : forall sh th sh' th' evs,
+  nou_pc (tpc th) = true ->
   tstep sh th = (sh', th', evs) ->
   (anchors sh' = anchors sh /\ forall sid, ~ In (MFree sid) evs) \/
   exists g p a0 a1 sh1 r evs1,
@@ -79,8 +80,8 @@ Lemma tstep_anchor_effect : forall sh th sh' th' evs,
     astepA sh a0 p = (a1, sh1, r, evs1) /\ anchors sh' = updN g a1 (anchors sh) /\
     (forall sid, In (MFree sid) evs -> In (MFree sid) evs1).
 Proof.
-  intros sh [m p c s] sh' th' evs E. unfold tstep in E. cbn [cm tpc cur scr] in E.
-  destruct p as [ | | |f0 m0|g0 m0|k|k|k|g p|g p].
+  intros sh [m p c s] sh' th' evs NU E. unfold tstep in E. cbn [cm tpc cur scr] in E. cbn [tpc] in NU.
+  destruct p as [ | | |f0 m0|g0 m0|k|k|k|g p|g p|u q]; [ | | | | | | | | | |discriminate NU].
   - left. destruct (fetchk m s) as [[o r]|].
     + destruct (start_op sh m o) as [[sh1 p1] evs1] eqn:S. inversion E; subst; clear E.
       split; [eapply start_op_anchors; eassumption|].
@@ -122,12 +123,13 @@ Lemma tra_tran : forall g p m c s, tra g (mkT m (Tran g p) c s) = alock p.
 Proof. intros. cbn [tra tpc]. rewrite N.eqb_refl. reflexivity. Qed.
 
 Theorem tstep_protected : forall sh th sh' th' evs f a a',
+  nou_pc (tpc th) = true ->
   tstep sh th = (sh', th', evs) ->
   nthN f (anchors sh) = Some a -> nthN f (anchors sh') = Some a' ->
   akey a' <> akey a \/ (wtbf a = true /\ wtbf a' = false) -> exclOn f th.
 Proof.
-  intros sh th sh' th' evs f a a' E Ha Ha' H.
-  destruct (tstep_anchor_effect _ _ _ _ _ E) as [[An _]|(g & p & a0 & a1 & sh1 & r & evs1 & TP & Ha0 & EA & An & _)].
+  intros sh th sh' th' evs f a a' NU E Ha Ha' H.
+  destruct (tstep_anchor_effect _ _ _ _ _ NU E) as [[An _]|(g & p & a0 & a1 & sh1 & r & evs1 & TP & Ha0 & EA & An & _)].
   - rewrite An in Ha'. rewrite Ha in Ha'. inversion Ha'; subst. exfalso. destruct H as [H|[H1 H2]]; congruence.
   - rewrite An in Ha'. destruct (N.eq_dec g f) as [->|D].
     + rewrite (nthN_updN_same _ _ _ _ _ Ha0) in Ha'. inversion Ha'; subst a'. rewrite Ha in Ha0. inversion Ha0; subst a0.
@@ -141,11 +143,12 @@ Proof.
 Qed.
 
 Theorem tstep_free_excl : forall sh th sh' th' evs sid,
+  nou_pc (tpc th) = true ->
   tstep sh th = (sh', th', evs) -> In (MFree sid) evs ->
   exists g, exclOn g th /\ exists p, (tpc th = Prim g p \/ tpc th = Tran g p).
 Proof.
-  intros sh th sh' th' evs sid E I.
-  destruct (tstep_anchor_effect _ _ _ _ _ E) as [[_ NF]|(g & p & a0 & a1 & sh1 & r & evs1 & TP & Ha0 & EA & An & FR)].
+  intros sh th sh' th' evs sid NU E I.
+  destruct (tstep_anchor_effect _ _ _ _ _ NU E) as [[_ NF]|(g & p & a0 & a1 & sh1 & r & evs1 & TP & Ha0 & EA & An & FR)].
   - exfalso. eapply NF. exact I.
   - exists g. split; [|exists p; exact TP].
     assert (AL : alock p = Ready MExcl).
@@ -311,10 +314,10 @@ Proof.
     inversion H; subst. repeat split. right. split; [exists l, w; reflexivity | reflexivity].
 Qed.
 
-Lemma tstep_wf1 : forall sh th sh' th' evs, wf1 th -> tstep sh th = (sh', th', evs) -> wf1 th'.
+Lemma tstep_wf1 : forall sh th sh' th' evs, nou_pc (tpc th) = true -> wf1 th -> tstep sh th = (sh', th', evs) -> wf1 th'.
 Proof.
-  intros sh [m p c s] sh' th' evs W E. unfold tstep in E. cbn [cm tpc cur scr] in E. unfold wf1 in *. cbn [cm tpc] in W.
-  destruct p as [ | | |f0 m0|g0 m0|k|k|k|g p|g p].
+  intros sh [m p c s] sh' th' evs NU W E. unfold tstep in E. cbn [cm tpc cur scr] in E. unfold wf1 in *. cbn [cm tpc] in W. cbn [tpc] in NU.
+  destruct p as [ | | |f0 m0|g0 m0|k|k|k|g p|g p|u q]; [ | | | | | | | | | |discriminate NU].
   - destruct (fetchk m s) as [[o r]|] eqn:F.
     + destruct (start_op sh m o) as [[sh1 p1] evs1] eqn:S. inversion E; subst; clear E. cbn [cm tpc].
       destruct (fetchk_legal _ _ _ _ F) as [Lg _].
@@ -347,13 +350,13 @@ Qed.
 (* a process that is a reader after its own step either was one before (and its own step left the key alone
    unless it was made by its exclusive transient activity), or has just passed sameKey() *)
 Lemma tstep_reader : forall sh th sh' th' evs f k a a',
-  wf1 th -> tstep sh th = (sh', th', evs) -> tpc th' <> CrashedL ->
+  nou_pc (tpc th) = true -> wf1 th -> tstep sh th = (sh', th', evs) -> tpc th' <> CrashedL ->
   isReader th' f k -> nthN f (anchors sh) = Some a -> nthN f (anchors sh') = Some a' ->
   isReader th f k \/ akey a' = k.
 Proof.
-  intros sh [m p c s] sh' th' evs f k a a' W E NC [C H] Ha Ha'.
-  unfold tstep in E. cbn [cm tpc cur scr] in E. unfold wf1 in W. cbn [cm tpc] in W. unfold isReader, holdsP in *.
-  destruct p as [ | | |f0 m0|g0 m0|k0|k0|k0|g p|g p].
+  intros sh [m p c s] sh' th' evs f k a a' NU W E NC [C H] Ha Ha'.
+  unfold tstep in E. cbn [cm tpc cur scr] in E. cbn [tpc] in NU. unfold wf1 in W. cbn [cm tpc] in W. unfold isReader, holdsP in *.
+  destruct p as [ | | |f0 m0|g0 m0|k0|k0|k0|g p|g p|u q]; [ | | | | | | | | | |discriminate NU].
   - left. destruct (fetchk m s) as [[o r]|] eqn:F.
     + destruct (start_op sh m o) as [[sh1 p1] evs1] eqn:S. inversion E; subst; clear E. cbn [cm tpc] in *. subst m.
       split; [reflexivity|]. cbn [pri tpc cm cm_lmode]. rewrite N.eqb_refl. reflexivity.
@@ -628,15 +631,16 @@ Proof.
 Qed.
 
 Lemma tstep_opened : forall sh th sh' th' evs c k m',
+  nou_pc (tpc th) = true ->
   tstep sh th = (sh', th', evs) -> In (MRet c (OOpenR (Some k)) m') evs ->
   exists f a p, (tpc th = Prim f p \/ tpc th = Tran f p) /\ nthN f (anchors sh) = Some a /\ wtbf a = false /\ akey a = k.
 Proof.
-  intros sh [m p c0 s] sh' th' evs c k m' E I. unfold tstep in E. cbn [cm tpc cur scr] in E.
-  destruct p as [ | | |f0 m0|g0 m0|k0|k0|k0|g p|g p].
+  intros sh [m p c0 s] sh' th' evs c k m' NU E I. unfold tstep in E. cbn [cm tpc cur scr] in E. cbn [tpc] in NU.
+  destruct p as [ | | |f0 m0|g0 m0|k0|k0|k0|g p|g p|u q]; [ | | | | | | | | | |discriminate NU].
   - exfalso. destruct (fetchk m s) as [[o r]|].
     + destruct (start_op sh m o) as [[sh1 p1] evs1] eqn:S. inversion E; subst; clear E.
       destruct I as [I|I]; [discriminate|].
-      destruct o; cbn [start_op] in S;
+      destruct m; destruct o; cbn [start_op] in S;
         repeat match type of S with
                | context [if ?x then _ else _] => destruct x
                | context [match first_free ?a ?b with _ => _ end] => destruct (first_free a b)
